@@ -502,3 +502,100 @@ def rule_export_scale_siblings(ctx):
                                       % ("angular" if ang else "linear", short(t),
                                          "not multiplied" if ang else "multiplied")))
     ctx.floor(RULE_UNIT, 13, n, "DisplayObservationVisitor standard-deviation assignments")
+
+
+# --------------------------------------------------------------------------- index allocation order (C07 / C05)
+
+def rule_index_alloc_order(ctx):
+    """LocalLinearization allocates the indexes of unknowns on first use (`p.index_x() = ++maxn`).
+    LocalNetwork::refine_approx_coordinates() updates y of a point with the unknown that follows its x
+    (x(i), x(i+1)), i.e. it relies on index_y == index_x + 1.  Every handler that allocates both x and y
+    of one point must therefore allocate x first (the guarded allocation of x dominates that of y), as all
+    sibling handlers do - otherwise the result depends on which observation touches a point first."""
+    fx = ctx.facts
+    cls = "GNU_gama::local::LocalLinearization"
+    n = 0
+    for fn in fx.methods_of(cls):
+        if fn.body is None:
+            continue
+        allocs = {}   # receiver text -> {axis: [(assign node, guard cond node)]}
+        for x in fn.walk():
+            if x.get("k") != "BinaryOperator" or x.get("op") != "=":
+                continue
+            lhs, rhs = x["c"]
+            if lhs.get("k") != "CXXMemberCallExpr":
+                continue
+            name = strip_targs(lhs.get("callee") or "").rsplit("::", 1)[-1]
+            if name not in ("index_x", "index_y", "index_z"):
+                continue
+            inc = [y for y in walk(rhs) if y.get("k") == "UnaryOperator" and y.get("op") == "++"
+                   and F.is_this_field((y.get("c") or [{}])[0], "maxn")]
+            if not inc:
+                continue
+            recv = F.expr_text(F.call_object(lhs))
+            guard = None
+            for a in fn.ancestors(x):
+                if a.get("k") == "IfStmt":
+                    guard = a.get("cond")
+                    break
+            allocs.setdefault(recv, {}).setdefault(name[-1], []).append((x, guard))
+        for recv, ax in sorted(allocs.items()):
+            if "x" in ax and "y" in ax:
+                ctx.saw(fn)
+                cfg = fn.cfg
+                for yi, (ya, yg) in enumerate(ax["y"]):
+                    ok = any(cfg.dominates(xg if xg is not None else xa, yg if yg is not None else ya)
+                             for xa, xg in ax["x"])
+                    n += 1
+                    ctx.report("R-SIB", "LocalLinearization::%s:%s:x-index-before-y" % (fn.name, recv), ok,
+                               fn.where(ya), fn.short,
+                               "" if ok else "index_y of '%s' is allocated before index_x, unlike the sibling handlers: "
+                               "refine_approx_coordinates() assumes index_y == index_x + 1" % recv)
+    # the consumer of the adjacency
+    cons = fx.fn("local::LocalNetwork::refine_approx_coordinates")
+    ctx.saw(cons)
+    ctx.floor("R-SIB", 12, n, "x/y index allocations in LocalLinearization")
+
+
+# --------------------------------------------------------------------------- rhs assigned on every path (C05)
+
+def rule_rhs_every_path(ctx):
+    """LocalLinearization keeps the right-hand side of the current observation in the mutable member
+    `rhs`, shared by all handlers.  Every handler must assign it on every normal path (an assignment to
+    `rhs` post-dominates the handler's entry); a path that returns without assigning it reports the
+    misclosure of the previously linearised observation."""
+    fx = ctx.facts
+    cls = "GNU_gama::local::LocalLinearization"
+    c = fx.cls(cls)
+    if not any(f["name"] == "rhs" for f in c["fields"]):
+        raise AnalysisBroken("R-LIN: LocalLinearization::rhs not found")
+    n = 0
+    handlers = [f for f in fx.methods_of(cls) if f.body is not None and len(f.params) == 1
+                and "GNU_gama::local::" in f.params[0]["t"] and f.name != "visit"
+                and not f.rec.get("ctor")]
+    for fn in sorted(handlers, key=lambda f: f.name):
+        assigns = [x for x in fn.walk() if x.get("k") in ("BinaryOperator", "CompoundAssignOperator")
+                   and x.get("op") == "=" and F.is_this_field(x["c"][0], "rhs")]
+        if not assigns:
+            continue
+        ctx.saw(fn)
+        cfg = fn.cfg
+        avoid = set()
+        for a in assigns:
+            pb = cfg.block_of(a)
+            if pb is not None:
+                avoid.add(pb[0])
+        for bid, blk in cfg.blocks.items():      # throwing paths are not normal exits
+            if any(isinstance(e, int) and fn.nodes.get(e, {}).get("k") == "CXXThrowExpr" for e in blk.get("el", [])):
+                avoid.add(bid)
+        ok = not cfg.paths_avoiding(cfg.entry, avoid, {cfg.exit})
+        n += 1
+        ctx.report("R-LIN", "LocalLinearization::%s:rhs-on-every-path" % fn.name, ok, fn.where(), fn.short,
+                   "" if ok else "a path through %s returns without assigning rhs: the observation gets the "
+                   "right-hand side left over from the previous one" % fn.name)
+    ctx.floor("R-LIN", 13, n, "handlers assigning rhs")
+
+
+def _pdom_entry(cfg, node):
+    pb = cfg.block_of(node)
+    return pb is not None and pb[0] in cfg.pdom.get(cfg.entry, set())
